@@ -93,8 +93,12 @@ Proof.
   split.
   - exists z'. split; [|exact Hz'].
     unfold xfr_top, make_query. rewrite (zone_serial_zeq z v0 Hz). cbn [Z.eqb bind tIXFR Pos.eqb negb andb].
+    unfold xfr_core. cbn [Z.eqb tIXFR Pos.eqb negb andb].
+    change (xfr_run false) with inbound_xfr.
     unfold pick. rewrite Hu, UDP. cbn [Z.eqb eUseTCP Pos.eqb]. rewrite Ht, Hrun. reflexivity.
   - unfold xfr_top, make_query. rewrite (zone_serial_zeq z v0 Hz). cbn [Z.eqb bind tIXFR Pos.eqb negb andb].
+    unfold xfr_core. cbn [Z.eqb tIXFR Pos.eqb negb andb].
+    change (xfr_run false) with inbound_xfr.
     unfold pick. rewrite Hu, UDP. reflexivity.
 Qed.
 
@@ -144,4 +148,81 @@ Proof.
       assert (Hin : In (last (r :: rs) (Ok (0, None, None, 0, z'))) (r :: rs)) by (apply last_in; discriminate).
       rewrite Forall_forall in Hall. destruct (Hall _ Hin) as [s0 [zl El]].
       rewrite El in *. exact Hfin.
+Qed.
+
+(* ---- dns.query.inbound_xfr: which transports are used and what is reported (decision table) ---- *)
+Definition tcp_outcome (kr : bool) (z : zone) (qt : Z) (s : option Z) (tbt : list (option Z * list wmsg)) : res (Z * zone) :=
+  Ok (result_code (fst (xfr_run kr z qt s false (pick tbt s))), result_zone (fst (xfr_run kr z qt s false (pick tbt s)))).
+
+Theorem inbound_xfr_decision_table : forall kr z qt s mode tbu tbt,
+  (* an AXFR query, or udp_mode NEVER: TCP only, the UDP table is never consulted *)
+  ((qt <> tIXFR \/ mode = 0) -> xfr_core kr z qt s mode tbu tbt = tcp_outcome kr z qt s tbt) /\
+  (* an IXFR query with udp_mode TRY_FIRST / ONLY: UDP first *)
+  (qt = tIXFR -> mode <> 0 ->
+     let u := fst (xfr_run kr z qt s true (pick tbu s)) in
+     (forall z', u = Done z' -> xfr_core kr z qt s mode tbu tbt = Ok (0, z')) /\
+     (forall e z', u = Error e z' -> e <> eUseTCP -> xfr_core kr z qt s mode tbu tbt = Ok (e, z')) /\
+     (forall z', u = Error eUseTCP z' -> mode = 2 -> xfr_core kr z qt s mode tbu tbt = Ok (eUseTCP, z')) /\
+     (forall z', u = Error eUseTCP z' -> mode <> 2 -> xfr_core kr z qt s mode tbu tbt = tcp_outcome kr z qt s tbt)).
+Proof.
+  intros kr z qt s mode tbu tbt. unfold xfr_core, tcp_outcome. split.
+  - intros [Hq|Hm].
+    + apply Z.eqb_neq in Hq. rewrite Hq. cbn [andb]. destruct (xfr_run kr z qt s false (pick tbt s)); reflexivity.
+    + subst mode. cbn [Z.eqb negb]. rewrite andb_false_r. destruct (xfr_run kr z qt s false (pick tbt s)); reflexivity.
+  - intros Hq Hm. apply Z.eqb_eq in Hq. apply Z.eqb_neq in Hm. rewrite Hq, Hm. cbn [negb andb].
+    destruct (xfr_run kr z qt s true (pick tbu s)) as [u n]. cbn [fst].
+    repeat split.
+    + intros z' ->. reflexivity.
+    + intros e z' -> He. apply Z.eqb_neq in He. rewrite He. reflexivity.
+    + intros z' -> ->. reflexivity.
+    + intros z' -> Hm2. apply Z.eqb_neq in Hm2. rewrite Hm2. cbn [Z.eqb eUseTCP Pos.eqb].
+      destruct (xfr_run kr z qt s false (pick tbt s)); reflexivity.
+Qed.
+
+(* whatever the mode and the tables: an error code is reported only with the zone untouched *)
+Theorem xfr_core_error_leaves_zone : forall kr z qt s mode tbu tbt c z',
+  xfr_core kr z qt s mode tbu tbt = Ok (c, z') -> c <> 0 -> z' = z.
+Proof.
+  intros kr z qt s mode tbu tbt c z' H Hc. unfold xfr_core in H.
+  assert (TCP : forall r n, xfr_run kr z qt s false (pick tbt s) = (r, n) ->
+                Ok (result_code r, result_zone r) = Ok (c, z') -> z' = z).
+  { intros r n Hr E. inversion E; subst. destruct r as [zr|e zr]; cbn in *; [congruence|].
+    eapply error_leaves_zone_t; exact Hr. }
+  destruct ((qt =? tIXFR) && negb (mode =? 0)).
+  - destruct (xfr_run kr z qt s true (pick tbu s)) as [u n] eqn:Hu. destruct u as [zu|e zu].
+    + inversion H; subst. congruence.
+    + assert (zu = z) by (eapply error_leaves_zone_t; exact Hu). subst zu.
+      destruct (e =? eUseTCP).
+      * destruct (mode =? 2); [inversion H; reflexivity|].
+        destruct (xfr_run kr z qt s false (pick tbt s)) as [r n2] eqn:Hr. eapply TCP; [reflexivity|exact H].
+      * inversion H; reflexivity.
+  - destruct (xfr_run kr z qt s false (pick tbt s)) as [r n2] eqn:Hr. eapply TCP; [reflexivity|exact H].
+Qed.
+
+(* the query side: make_query with an explicit serial / keyring, then extract_serial_from_query *)
+Theorem query_serial_table : forall zs ser,
+  match make_query zs ser with
+  | Ok (qt, s) =>
+      extract_serial (qt, s) = Ok s /\
+      match ser with
+      | None => qt = tAXFR /\ s = None                                        (* serial=None forces AXFR *)
+      | Some n =>
+          if n =? 0 then match zs with
+                         | Some z0 => qt = tIXFR /\ s = Some z0               (* 0: the zone's serial *)
+                         | None => qt = tAXFR /\ s = None                     (* no SOA yet: AXFR *)
+                         end
+          else qt = tIXFR /\ s = Some n /\ 0 < n < two32                      (* an explicit base serial *)
+      end
+  | Internal _ => exists n, ser = Some n /\ n <> 0 /\ ~ (0 < n < two32)      (* ValueError: out of range *)
+  | Lib _ => False
+  end.
+Proof.
+  intros zs ser. unfold make_query. destruct ser as [n|]; [|cbn; auto].
+  destruct (n =? 0) eqn:E0.
+  - destruct zs; cbn; auto.
+  - destruct ((0 <? n) && (n <? two32)) eqn:Er.
+    + apply andb_true_iff in Er. destruct Er as [H1 H2]. apply Z.ltb_lt in H1. apply Z.ltb_lt in H2.
+      cbn [extract_serial]. cbn. repeat split; auto.
+    + exists n. apply Z.eqb_neq in E0. split; [reflexivity|]. split; [exact E0|].
+      intros [H1 H2]. apply Z.ltb_lt in H1. apply Z.ltb_lt in H2. rewrite H1, H2 in Er. discriminate.
 Qed.
